@@ -14,15 +14,19 @@ L(a, x) == hist' = Append(hist, <<a, x, Cardinality(pending')>>)       \* label,
 JunkId(f) == IF f.id \in answered THEN f.id ELSE 0        \* a duplicate of an answered id, else "an id never issued"
 GNext == \/ \E c \in Callers : \/ (Alloc(c) /\ L("Alloc", c))
                                \/ (Register(c) /\ L("Register", c))
-                               \/ (Write(c) /\ L("Write", c))
+                               \* replay only the writes whose outcome the specification fixes: none while a fault is in flight
+                               \/ (Write(c) /\ (Faulted => writerShut) /\ L(IF writerShut THEN "WriteFail" ELSE "Write", c))
                                \/ (Take(c) /\ L("Take", c))
          \/ (SrvRead /\ L("SrvRead", Head(c2s).id))                        \* the request the server reads: FIFO
          \/ \E id \in seen : SrvReply(id) /\ L("SrvReply", id)
          \/ \E f \in JunkFrames : f.kind = "resp" /\ SrvJunk(f) /\ L("SrvJunk", JunkId(f))
-         \/ (Recv /\ L("Recv", 0))
-         \/ (Dispatch /\ L("Dispatch", 0))
+         \/ (Recv /\ L("Recv", IF Head(s2c).kind \in {"close", "malformed"} THEN 1 ELSE 0))     \* 1: the frame is the fault
+         \/ (Dispatch /\ L("Dispatch", IF cur.kind \in {"close", "malformed"} THEN 1 ELSE 0))
+         \/ \E k \in {"close", "malformed"} : SrvFault(k) /\ s2c'[Len(s2c')].tag = 0 /\ L(IF k = "close" THEN "SrvClose" ELSE "SrvMalformed", 0)
+         \/ (Fail1 /\ L("Fail1", 0))
+         \/ (Fail2 /\ L("Fail2", 0))
 GSpec == GInit /\ [][GNext]_<<vars, hist>>
-Finished == (\A c \in Callers : pc[c] = "done") /\ s2c = <<>> /\ cur = NoFrame
+Finished == (\A c \in Callers : pc[c] = "done") /\ (reader = "dead" \/ (reader = "alive" /\ s2c = <<>> /\ cur = NoFrame))
 Emit == Finished => PrintT(<<"BEH", ToJson([steps |-> hist,
                                               results |-> [c \in Callers |-> <<result[c].cls, result[c].id, result[c].tag>>]])>>)
 \* stop extending a behaviour once it is finished (simulation mode would otherwise keep adding junk)
